@@ -12,6 +12,13 @@ def wait(deferred):
     return deferred
 
 
+# Values that were multiplied by zero. Such a value vanishes from the polynomial
+# it is a term of and would never be evaluated, and an error its evaluation
+# reports (e.g. division by zero) would be lost with it; the compiler evaluates
+# them once everything else is known.
+zero_terms = []
+
+
 class TryCompute:
     depth = 0
 
@@ -149,7 +156,12 @@ class BaseDeferred(metaclass=BaseDeferredMetaclass):
             estimate = self.get_current_best_estimate()
             if estimate is not self:
                 return estimate * rhs
-            return Deferred[self.typ](lambda: LinearPolynomial[self.typ]({self: wait(rhs)}))
+            def product():
+                coefficient = wait(rhs)
+                if coefficient == 0:
+                    zero_terms.append(self)
+                return LinearPolynomial[self.typ]({self: coefficient})
+            return Deferred[self.typ](product)
         else:
             raise TypeError(f"Don't know how to multiply {self.typ.__name__}")
 
@@ -158,6 +170,8 @@ class BaseDeferred(metaclass=BaseDeferredMetaclass):
             estimate = self.get_current_best_estimate()
             if estimate is not self:
                 return lhs * estimate
+            if lhs == 0:
+                zero_terms.append(self)
             return LinearPolynomial[self.typ]({self: lhs})
         else:
             raise TypeError(f"Don't know how to multiply {self.typ.__name__}")
